@@ -340,3 +340,74 @@ pub fn guarded<T, F: FnOnce() -> T + std::panic::UnwindSafe>(f: F) -> Result<T, 
 pub fn quiet_panics() {
     std::panic::set_hook(Box::new(|_| {}));
 }
+
+// ------------------------------------------------------------------------------------------
+/// An in-memory tuikit Canvas that records what is drawn.
+pub mod canvas {
+    use tuikit::attr::Attr;
+    use tuikit::canvas::Canvas;
+    use tuikit::cell::Cell;
+    use unicode_width::UnicodeWidthChar;
+
+    pub struct Rec {
+        pub width: usize,
+        pub height: usize,
+        /// every put_cell inside the area, in call order: (row, col, char, attr)
+        pub cells: Vec<(usize, usize, char, Attr)>,
+        /// put_cell calls outside the area (row >= height or col >= width)
+        pub outside: Vec<(usize, usize, char)>,
+        /// print_with_attr calls: (row, col, text)
+        pub prints: Vec<(usize, usize, String)>,
+        pub cursor: Option<(usize, usize)>,
+        pub clears: usize,
+    }
+
+    impl Rec {
+        pub fn new(width: usize, height: usize) -> Self {
+            Rec { width, height, cells: vec![], outside: vec![], prints: vec![], cursor: None, clears: 0 }
+        }
+        /// final content of each cell (later writes win)
+        pub fn grid(&self) -> std::collections::BTreeMap<(usize, usize), (char, Attr)> {
+            let mut m = std::collections::BTreeMap::new();
+            for (r, c, ch, a) in &self.cells {
+                m.insert((*r, *c), (*ch, *a));
+            }
+            m
+        }
+    }
+
+    impl Canvas for Rec {
+        fn size(&self) -> tuikit::Result<(usize, usize)> {
+            Ok((self.width, self.height))
+        }
+        fn clear(&mut self) -> tuikit::Result<()> {
+            self.clears += 1;
+            self.cells.clear();
+            Ok(())
+        }
+        fn put_cell(&mut self, row: usize, col: usize, cell: Cell) -> tuikit::Result<usize> {
+            let w = cell.ch.width().unwrap_or(2);
+            if row >= self.height || col >= self.width {
+                self.outside.push((row, col, cell.ch));
+            } else {
+                self.cells.push((row, col, cell.ch, cell.attr));
+            }
+            Ok(w)
+        }
+        fn print_with_attr(&mut self, row: usize, col: usize, content: &str, attr: Attr) -> tuikit::Result<usize> {
+            self.prints.push((row, col, content.to_string()));
+            let mut width = 0;
+            for ch in content.chars() {
+                width += self.put_cell(row, col + width, Cell { ch, attr })?;
+            }
+            Ok(width)
+        }
+        fn set_cursor(&mut self, row: usize, col: usize) -> tuikit::Result<()> {
+            self.cursor = Some((row, col));
+            Ok(())
+        }
+        fn show_cursor(&mut self, _show: bool) -> tuikit::Result<()> {
+            Ok(())
+        }
+    }
+}
